@@ -230,6 +230,34 @@ Definition frozen_serveBackSide : list string :=
 Lemma gen_serveBackSide_frozen : skel_is gen_transport_skel "Server.serveBackSide" frozen_serveBackSide = true.
 Proof. vm_compute. reflexivity. Qed.
 
+(** ** The side dial is bounded by a deadline of its own (Sni/ShutdownSideDial.v)
+
+    The context [sideConn] passes to [dialSide] is made by
+    [context.WithTimeout] / [context.WithDeadline]: the bound on the
+    handler's first blocking step does not depend on the websocket dialer
+    the application may have supplied ([DialOption.Dialer] is used as it
+    is). *)
+Definition ctx_has_deadline (e : string) : bool :=
+  String.prefix "context.WithTimeout(" e || String.prefix "context.WithDeadline(" e.
+
+Definition gen_side_dial_bounded : bool :=
+  match gen_sideConn_dial_ctx with [] => false | l => forallb ctx_has_deadline l end.
+
+Lemma gen_side_dial_has_deadline : gen_side_dial_bounded = true.
+Proof. vm_compute. reflexivity. Qed.
+
+Definition frozen_sideConn : list string :=
+  [ "0 assign bg := context.Background()";
+      "0 assign ctx, cancel := context.WithTimeout(bg, 5*time.Second)";
+      "0 defer cancel()";
+      "0 assign conn, err := s.dialer.dialSide(ctx, tok, k)";
+      "0 if err != nil";
+      "1 return nil, err";
+      "0 return newSideConn(conn, addr), nil" ].
+
+Lemma gen_sideConn_frozen : skel_is gen_transport_skel "endpointServer.sideConn" frozen_sideConn = true.
+Proof. vm_compute. reflexivity. Qed.
+
 (** ** The seeded change C04-e, as a counter-model *)
 
 (** handleDial as the translator reads it off the changed source: the
